@@ -1321,6 +1321,18 @@ where
                                         }
 """, new="""                                        error_response(&mut self.write, &error).await?;
 """),
+    dict(id="c04-prewarm-without-a-deadline", prop="C04", file="src/pool.rs", expect="C04-R7",
+         what="the prewarm queries are awaited with no deadline again (D86 again)",
+         old="""                            Ok(result) => result?,
+                            Err(_) => {
+                                return Err(Error::SocketError(format!(
+                                    "server {:?} did not answer the prewarm queries within {} ms",
+                                    self.address, self.connect_timeout
+                                )))
+                            }
+                        }""", new="""                            Ok(result) => result?,
+                            Err(_) => prewarmer.run().await?,
+                        }"""),
     dict(id="c04-cache-only-batch-keeps-the-server", prop="C04", file="src/client.rs", expect="C04-R3",
          what="a batch served from the statement cache alone skips the release (round-10 seed)",
          old="""                        if should_send_to_server {
